@@ -1266,10 +1266,13 @@ coap_oscore_decrypt_pdu(coap_session_t *session,
     } else {
       uint64_t last_seq;
 
-      if (rcp_ctx->initial_state == 0 &&
-          !oscore_validate_sender_seq(rcp_ctx, cose)) {
-        coap_log_warn("OSCORE: Replayed or old message\n");
-        goto error;
+      if (rcp_ctx->initial_state == 0) {
+        if (!oscore_validate_sender_seq(rcp_ctx, cose)) {
+          coap_log_warn("OSCORE: Replayed or old message\n");
+          goto error;
+        }
+        /* undone below if the response does not verify */
+        seq_validated = 1;
       }
       last_seq =
           coap_decode_var_bytes8(cose->partial_iv.s, cose->partial_iv.length);
@@ -1419,6 +1422,8 @@ coap_oscore_decrypt_pdu(coap_session_t *session,
         oscore_roll_back_seq(rcp_ctx);
       goto error_no_ack;
     } else {
+      if (seq_validated)
+        oscore_roll_back_seq(rcp_ctx);
       coap_handle_event_lkd(session->context,
                             COAP_EVENT_OSCORE_DECRYPTION_FAILURE,
                             session);
